@@ -244,7 +244,32 @@ def verify_class(P, g, key, info, cls, rep_rules_clean):
         got = set(callers_of(P, fn.id))
         if got - want:
             return False, "new caller(s) %s of a conversion that panics unless the pair has rule %s: each caller must be reviewed" % (sorted(got - want), parts[1])
-        return True, "callers %s are the reviewed set" % sorted(got)
+        # every call site hands over a pair whose rule is established: a child taken from a parent pair (grammar fact), the result
+        # of a rule-checking `unwrap_*` helper, an iterator item (closure parameter), or a value on a rule-specific match arm
+        from origins import backward_slice
+        for cid in sorted(got):
+            C = P.fns.get(cid) or next((f for f in P.fns.values() if f.key == cid), None)
+            if C is None:
+                continue
+            for bi2, t2 in P.calls(C):
+                if not t2.get("f") or t2["f"]["id"] != fn.id or not t2["args"]:
+                    continue
+                ol = op_local(t2["args"][0])
+                locs, calls = backward_slice(C, ol[0]) if ol else (set(), [])
+                lasts = {c_["f"]["id"].rsplit("::", 1)[1] for c_ in calls if c_.get("f")}
+                est = bool(lasts & {"next", "into_inner", "peek", "nth", "last", "next_back"}) or any(x.startswith("unwrap_") for x in lasts)
+                if not est and C.kind == "closure" and any(l in locs for l in range(2, C.argc + 1)):
+                    est = True
+                if not est:
+                    # on an arm of `match pair.as_rule()`
+                    for di, b in enumerate(C.blocks):
+                        if b["t"]["k"] == "switch" and P.dominates(C, di, bi2) and any(
+                                st[0] == "a" and st[2]["k"] == "discr" and P.local_ty(C, st[2]["p"][0]).endswith("inner::Rule") for st in b["s"]):
+                            est = True
+                if not est:
+                    return False, ("caller %s passes a pair whose rule is not established at the call (line %s): not a child taken from a parent pair, "
+                                   "not the result of an unwrap_* rule check, not on a `match as_rule()` arm" % (C.key, t2["line"]))
+        return True, "callers %s are the reviewed set and each passes a rule-established pair" % sorted(got)
     if c == "O-RULE":
         return True, "discharged by rule %s (run for this property)" % parts[1]
     if c == "D-CMP":
